@@ -141,4 +141,17 @@ def createEff (F : Facts) (dec opens declOK : Bool) : Bool × Bool :=
   else if !declOK then (false, !F.declareFailureUnregisters)
   else (true, true)
 
+/-- … and whether the bucket may have been written by the attempt.  The storage open stores a
+    merge version when it finds several unmerged versions under the prefix (`multi`).  `namesOK`:
+    SQLite will accept the declaration (no two columns equal up to case, no `_rowid_` without a
+    key, valid UTF-8) — checked by `convertSchema` before the open when
+    `declarableCheckedBeforeOpen`.  A storage that cannot be opened is one whose first request
+    fails (it writes nothing).  Result: (accepted, wrote). -/
+def createWrites (F : Facts) (dec namesOK opens multi : Bool) : Bool × Bool :=
+  if !dec then (false, false)
+  else if F.declarableCheckedBeforeOpen && !namesOK then (false, false)
+  else if !opens then (false, false)
+  else if !namesOK then (false, multi)      -- refused by SQLite's declare, after the open
+  else (true, multi)
+
 end S3db.Schema
